@@ -28,7 +28,7 @@ from easynetwork.servers.handlers import AsyncDatagramRequestHandler, AsyncStrea
 from .. import vloop
 from ..core import Ctx, JobResult, Violation, digest, explore
 from ..srvrig import Ev, Recorder, RigBackend, Script, quiet_logger, wait_until
-from ..world import World
+from ..world import FakeSocket, Pipe, World
 
 PROPERTY = "C17"
 LEVEL = "fault_enumeration"
@@ -38,9 +38,9 @@ RULE = (
     "BaseExceptionGroup([ClientClosedError, ValueError])} x hook position in {on_connection coroutine / generator before its first "
     "yield / generator after its yield, handle before first yield / after request 1 / while handling a thrown parse error / in "
     "finally after a normal return / in finally while being closed on disconnect, on_disconnection} for TCP (UDP: the four handle "
-    "positions) + connection set-up faults {getpeername ENOTCONN after accept, connection reset right after accept (x 3 positions)} "
+    "positions) + connection set-up faults {getpeername ENOTCONN after accept, set-up of the accepted socket failing with ENOTCONN / EINVAL inside the listener task, connection reset right after accept (x 3 positions)} "
     "x 1-2 concurrent healthy clients x both TCP receive paths; schedules: the peer acting next and the loop-iteration boundary of "
-    "every client event are explorer choices (round-robin default, bound 1 quick / 2 thorough deviations); distinct_nontrivial = "
+    "every client event are explorer choices (round-robin default, bound 1 quick / 2 thorough deviations, 1 for TCP with 2 healthy clients); distinct_nontrivial = "
     "distinct (scenario, hook log) pairs of executions with at least one non-default choice"
 )
 ASSUMPTIONS = [
@@ -49,7 +49,7 @@ ASSUMPTIONS = [
     "the faulty peer's own request/response exchange is not judged beyond 'its connection ends closed and on_disconnection ran iff documented'",
     "healthy handlers answer every request with one packet and never fail; sends never block (unbounded fake pipes)",
 ]
-BOUNDS = {"quick": "1 placement deviation per scenario", "thorough": "2 placement deviations per scenario"}
+BOUNDS = {"quick": "1 placement deviation per scenario", "thorough": "2 placement deviations per scenario (1 for TCP scenarios with 2 healthy clients)"}
 
 EXC = ("ValueError", "KeyError", "EG", "ConnReset", "BrokenPipe", "ClientClosed", "Timeout", "ParseError", "BEG")
 TCP_POS = ("oc-coro", "oc-gen-pre", "oc-gen-post", "h-pre", "h-post", "h-thrown", "h-finally-ret", "h-finally-exit", "disc")
@@ -81,6 +81,35 @@ def make_exc(name: str, udp: bool = False) -> BaseException:
     if name == "BEG":
         return BaseExceptionGroup("group", [ClientClosedError("Closed client"), ValueError("boom")])
     raise AssertionError(name)
+
+
+class SetupFailSocket(FakeSocket):
+    """An accepted socket whose set-up inside the listener's per-connection task raises OSError (what a peer that sent RST
+    right after the handshake produces on some platforms)."""
+
+    fail_errno = errno.ENOTCONN
+    sb_calls = 0
+
+    def setblocking(self, flag: bool) -> None:
+        # 1st call: loop.sock_accept() on the freshly accepted socket; 2nd call: loop.connect_accepted_socket() inside the
+        # listener's per-connection task - that one fails
+        self.sb_calls += 1
+        if self.sb_calls == 2:
+            raise OSError(self.fail_errno, "set-up failure injected by the harness")
+        super().setblocking(flag)
+
+
+def setup_fail_socket(world: World, peer: tuple, err: int) -> FakeSocket:
+    import socket as _s
+
+    s = SetupFailSocket(world, _s.AF_INET, _s.SOCK_STREAM)
+    s.fail_errno = err
+    s.rx = Pipe(None)
+    s.tx = Pipe(None)
+    s.peername = peer
+    s.sockname = ("127.0.0.1", 50000)
+    s.connected = True
+    return s
 
 
 def who_of(port: int) -> str:
@@ -250,7 +279,7 @@ class UDPHandler(AsyncDatagramRequestHandler):
 
 def faulty_frames(cfg: dict) -> list[bytes]:
     pos = cfg["pos"]
-    if cfg.get("fault") in ("enotconn",):
+    if cfg.get("fault") in ("enotconn", "connect-enotconn", "connect-einval"):
         return [b"f1\n"]
     if pos == "h-thrown":
         return [b"\xff\n"]
@@ -268,7 +297,11 @@ def run_tcp(ctx: Ctx, cfg: dict) -> dict:
     proto: Any = StreamProtocol(serializer) if cfg["proto"] == "copy" else BufferedStreamProtocol(serializer)
     nh = cfg["healthy"]
     out: dict = {}
-    fsock = world.stream_socket(peer=("127.0.0.1", F_PORT))
+    holder: dict = {}
+    if cfg.get("fault") in ("connect-enotconn", "connect-einval"):
+        fsock = setup_fail_socket(world, ("127.0.0.1", F_PORT), errno.ENOTCONN if cfg["fault"] == "connect-enotconn" else errno.EINVAL)
+    else:
+        fsock = world.stream_socket(peer=("127.0.0.1", F_PORT))
     fsock.tag = "F"
     if cfg.get("fault") == "enotconn":
         fsock.getpeername_error = OSError(errno.ENOTCONN, "Transport endpoint is not connected")
@@ -302,7 +335,7 @@ def run_tcp(ctx: Ctx, cfg: dict) -> dict:
     async def main(loop: Any) -> None:
         backend = RigBackend(world)
         server = AsyncTCPNetworkServer(None, 0, proto, TCPHandler(common), backend=backend, logger=quiet_logger())
-        task = loop.create_task(server.serve_forever())
+        task = holder["task"] = loop.create_task(server.serve_forever())
         out["up"] = await wait_until(server.is_serving)
         lsock = backend.tcp_listener_socks[0]
         # phase 1: the faulty client and the healthy clients, interleaved
@@ -357,6 +390,9 @@ def run_tcp(ctx: Ctx, cfg: dict) -> dict:
     out["pending"] = [lane[0].label for lane in script.lanes if lane]
     out["placed_busy"] = script.placed_busy
     out["unhandled"] = [u.get("exception") or u.get("message") for u in vloop.collect_unhandled(loop)]
+    t = holder.get("task")
+    if t is not None and t.done() and not t.cancelled() and "serve_exc" not in out:
+        out["serve_exc"] = repr(t.exception())[:400]
     return out
 
 
@@ -364,6 +400,8 @@ def oracle_tcp(cfg: dict, obs: dict) -> tuple[str | None, str]:
     log = obs.get("log", [])
     if obs["status"] != "ok":
         st = obs["status"].split(":")[0]
+        if st == "deadlock" and obs.get("serve_exc"):
+            return "server-stopped-by-client-failure", f"serve_forever() died with {obs['serve_exc']}; events never applied: {obs.get('pending')}; log={log}"
         if st == "deadlock":
             return "hang", f"nothing can run any more; events never applied: {obs.get('pending')} (a healthy client never got its response, or shutdown hangs); log={log}"
         if st == "horizon":
@@ -397,7 +435,7 @@ def oracle_tcp(cfg: dict, obs: dict) -> tuple[str | None, str]:
     # the faulty client's hooks
     fh = [e[1] for e in log if e[0] == "F" and e[1] in ("conn", "disc")]
     pos, fault = cfg["pos"], cfg.get("fault")
-    if fault == "enotconn":
+    if fault in ("enotconn", "connect-enotconn", "connect-einval"):
         ok = fh in ([], ["conn", "disc"])
         want_h = "[] (set-up failed before on_connection) or [conn, disc]"
     elif pos in ("oc-coro", "oc-gen-pre", "oc-gen-post"):
@@ -434,12 +472,13 @@ def run_udp(ctx: Ctx, cfg: dict) -> dict:
     proto = DatagramProtocol(StringLineSerializer())
     nh = cfg["healthy"]
     out: dict = {}
+    holder: dict = {}
     faddr = ("127.0.0.1", F_PORT)
 
     async def main(loop: Any) -> None:
         backend = RigBackend(world)
         server = AsyncUDPNetworkServer(None, 0, proto, UDPHandler(common), backend=backend, logger=quiet_logger())
-        task = loop.create_task(server.serve_forever())
+        task = holder["task"] = loop.create_task(server.serve_forever())
         out["up"] = await wait_until(server.is_serving)
         usock = backend.udp_listener_socks[0]
 
@@ -488,6 +527,9 @@ def run_udp(ctx: Ctx, cfg: dict) -> dict:
     out["pending"] = [lane[0].label for lane in script.lanes if lane]
     out["placed_busy"] = script.placed_busy
     out["unhandled"] = [u.get("exception") or u.get("message") for u in vloop.collect_unhandled(loop)]
+    t = holder.get("task")
+    if t is not None and t.done() and not t.cancelled() and "serve_exc" not in out:
+        out["serve_exc"] = repr(t.exception())[:400]
     return out
 
 
@@ -495,6 +537,8 @@ def oracle_udp(cfg: dict, obs: dict) -> tuple[str | None, str]:
     log = obs.get("log", [])
     if obs["status"] != "ok":
         st = obs["status"].split(":")[0]
+        if st == "deadlock" and obs.get("serve_exc"):
+            return "server-stopped-by-client-failure", f"serve_forever() died with {obs['serve_exc']}; events never applied: {obs.get('pending')}; log={log}"
         if st == "deadlock":
             return "hang", f"nothing can run any more; events never applied: {obs.get('pending')}; log={log}"
         if st == "horizon":
@@ -544,15 +588,17 @@ def oracle_udp(cfg: dict, obs: dict) -> tuple[str | None, str]:
 
 def scenarios(tier: str) -> list[dict]:
     out = []
-    bound = 1 if tier == "quick" else 2
     for nh in (1, 2):
+        ubound = 1 if tier == "quick" else 2
+        bound = 1 if (tier == "quick" or nh == 2) else 2  # TCP with 2 healthy clients: ~9000 executions per scenario at bound 2
         for proto in ("copy", "buf"):
             for pos in TCP_POS:
                 for exc in EXC:
                     if tier == "quick" and proto == "buf" and nh == 2:
                         continue
                     out.append({"kind": "tcp", "proto": proto, "healthy": nh, "pos": pos, "exc": exc, "fault": None, "bound": bound})
-            out.append({"kind": "tcp", "proto": proto, "healthy": nh, "pos": "none", "exc": "ValueError", "fault": "enotconn", "bound": bound + 1})
+            for fault in ("enotconn", "connect-enotconn", "connect-einval"):
+                out.append({"kind": "tcp", "proto": proto, "healthy": nh, "pos": "none", "exc": "ValueError", "fault": fault, "bound": bound})
             for pos in ("oc-coro", "disc", "h-finally-exit"):
                 for exc in EXC:
                     if tier == "quick" and exc not in ("ValueError", "ConnReset", "BEG"):
@@ -560,7 +606,7 @@ def scenarios(tier: str) -> list[dict]:
                     out.append({"kind": "tcp", "proto": proto, "healthy": nh, "pos": pos, "exc": exc, "fault": "reset", "bound": bound})
         for pos in UDP_POS:
             for exc in EXC:
-                out.append({"kind": "udp", "healthy": nh, "pos": pos, "exc": exc, "fault": None, "bound": bound})
+                out.append({"kind": "udp", "healthy": nh, "pos": pos, "exc": exc, "fault": None, "bound": ubound})
     return out
 
 
